@@ -69,6 +69,13 @@ def tree_case(draw):
                 base_names, how=["equal", "overlap", "disjoint", "disjoint", "free"]))
             leaves.append(draw(gen.poly_desc(names=names, shape=shp, kind=kind,
                                              max_terms=5, max_exp=2)))
+    # sometimes the same operands with all exponents stretched: term counts stay, but products and powers
+    # reach exponents >= 69 / >= 197, where the product takes another code path than for small ones
+    scale = draw(st.sampled_from([1, 1, 1, 1, 1, 23, 35, 70]))
+    if scale > 1:
+        for d in leaves:
+            if "num" not in d:
+                d["terms"] = [[[e * scale for e in t[0]], t[1]] for t in d["terms"]]
     is_poly = ["num" not in d for d in leaves]
     nterms = [max(1, len(d.get("terms", [1]))) for d in leaves]
     poly_ids = [i for i, f in enumerate(is_poly) if f]
